@@ -80,12 +80,11 @@ func c03Scenarios(c *vlib.Ctx) []c03Scenario {
 		}
 	}
 	out = append(out, c03Scenario{State: "RUNNING", Critical: false, Kind: "exec-failure+status", Instant: "idle", FailDelay: true})
-	// (Reuse scenarios are not generated: with reuseUnlockedTasks an environment built on taken-over tasks
-	// only becomes live when their status updates are delivered again, which takes the choreography of the
-	// C04 harness; the code below is kept for VERIF_C03_REUSE=1 experiments.)
-	if os.Getenv("VERIF_C03_REUSE") == "1" {
-		for _, st := range []string{"CONFIGURED", "RUNNING"} {
-			out = append(out, c03Scenario{State: st, Critical: true, Kind: "internal-error", Instant: "idle", Reuse: true})
+	// reuseUnlockedTasks: the environment under test is built on tasks taken over from an earlier environment
+	// (kept by a keep-tasks destroy); their executors still label their events with the first environment's id
+	for _, st := range []string{"CONFIGURED", "RUNNING"} {
+		for _, k := range []string{"internal-error", "killed"} {
+			out = append(out, c03Scenario{State: st, Critical: true, Kind: k, Instant: "idle", Reuse: true})
 		}
 	}
 	instants := []string{"transition", "grace", "sibling", "after-reconnect", "mixed", "late-reply"}
@@ -250,7 +249,7 @@ func c03Run(c *vlib.Ctx, idx int, sc c03Scenario) {
 		go func() {
 			ctx, cancel := coresim.Ctx(150 * time.Second)
 			defer cancel()
-			r2, err2 := s.Client.NewEnvironment(ctx, &pb.NewEnvironmentRequest{WorkflowTemplate: wfName, Vars: map[string]string{"c03_gate": gate2}})
+			r2, err2 := s.Client.NewEnvironment(ctx, &pb.NewEnvironmentRequest{WorkflowTemplate: wfName, Vars: map[string]string{"c03_gate": gate2, "hosts": `["host2"]`}}) // another detector: the first environment still holds host1's
 			second <- cr{r2, err2}
 		}()
 		parked := false
@@ -265,13 +264,43 @@ func c03Run(c *vlib.Ctx, idx int, sc c03Scenario) {
 		}
 		if !parked {
 			os.WriteFile(gate2, []byte("x"), 0o644)
-			c.Inconclusive(fmt.Sprintf("scenario %d: the second creation did not reach its before_DEPLOY gate", idx))
+			why := ""
+			select {
+			case sec := <-second:
+				why = ": it returned " + truncate(grpcMsg(sec.err), 300)
+			default:
+			}
+			c.Inconclusive(fmt.Sprintf("scenario %d: the second creation did not reach its before_DEPLOY gate%s", idx, why))
 			return
 		}
 		ctx, cancel := coresim.Ctx(api)
 		_, derr := s.Client.DestroyEnvironment(ctx, &pb.DestroyEnvironmentRequest{Id: envID, KeepTasks: true})
 		cancel()
 		os.WriteFile(gate2, []byte("x"), 0o644)
+		// an environment built on taken-over tasks becomes live when their status is delivered once more
+		// (status updates are delivered at least once); as soon as the second environment lists the kept
+		// tasks as its own the master sends TASK_RUNNING for each of them again
+		redelivered := map[string]bool{}
+		for dl := time.Now().Add(60 * time.Second); derr == nil && time.Now().Before(dl) && len(redelivered) < launched && len(second) == 0; time.Sleep(20 * time.Millisecond) {
+			ctx, cancel := coresim.Ctx(20 * time.Second)
+			er, lerr := s.Client.GetEnvironments(ctx, &pb.GetEnvironmentsRequest{ShowAll: true, ShowTaskInfos: true})
+			cancel()
+			if lerr != nil {
+				break
+			}
+			for _, e := range er.GetEnvironments() {
+				if e.GetId() == envID {
+					continue
+				}
+				for _, t := range e.GetTasks() {
+					if tid := t.GetTaskId(); tid != "" && !redelivered[tid] {
+						redelivered[tid] = true
+						s.Master.TaskStatus(tid, "TASK_RUNNING", "status update delivered again")
+					}
+				}
+			}
+		}
+		c.Count("status_updates_redelivered_after_takeover", int64(len(redelivered)))
 		sec := <-second
 		if derr != nil {
 			c.Inconclusive(fmt.Sprintf("scenario %d: keep-tasks destroy of the first environment failed: %s", idx, truncate(grpcMsg(derr), 300)))
